@@ -41,8 +41,11 @@ type Case struct {
 	CloseAfterWrite bool `json:",omitempty"`
 	// QuietMs (tcp): the connection is configured with this read timeout, and the client is quiet for 4/3 of it between
 	// its last read and its first write (a caller that sends a request after an idle period)
-	QuietMs int    `json:",omitempty"`
-	First   []byte // detect: first bytes presented to Detect
+	QuietMs int `json:",omitempty"`
+	// RefusedFirst (tcp, abridged): before each of its messages the client tries one whose length is no whole number of
+	// words (RefusedFirst extra bytes, 1..3) - abridged framing cannot carry it; nothing of it may reach the peer
+	RefusedFirst int    `json:",omitempty"`
+	First        []byte // detect: first bytes presented to Detect
 }
 
 func payload(seed uint64, i, n int) []byte { return hx.Det(seed*131+uint64(i)+1, n) }
@@ -359,6 +362,12 @@ func oracleTCP(c Case) (err error) {
 	for i, n := range c.Back {
 		body := payload(c.Seed+7, i, n)
 		id := int64(i+1) * 4
+		if c.RefusedFirst > 0 && c.Abridged {
+			odd := payload(c.Seed+9, i, n+c.RefusedFirst)
+			if err := tr.WriteMsg(&messages.Unencrypted{Msg: odd, MsgID: id}, false); err == nil {
+				return fmt.Errorf("WriteMsg accepted a %d-byte message in abridged mode, which frames whole words only", 20+len(odd))
+			}
+		}
 		if err := tr.WriteMsg(&messages.Unencrypted{Msg: body, MsgID: id}, false); err != nil {
 			return fmt.Errorf("WriteMsg: %v", err)
 		}
@@ -460,11 +469,14 @@ func record(c Case) {
 		if c.QuietMs > 0 {
 			cls = append(cls, "client-writes-after-quiet-period>timeout")
 		}
+		if c.RefusedFirst > 0 && c.Abridged && len(c.Back) > 0 {
+			cls = append(cls, "client-writes-after-a-refused-write")
+		}
 	}
 	if len(c.Lens) >= 2 {
 		nt = true
 	}
-	run.Case(nt, evid.Hash(c.Kind, c.Abridged, fmt.Sprint(c.Lens), c.Seed, fmt.Sprint(c.Code), c.Close, fmt.Sprint(c.Cuts), fmt.Sprint(c.Back), c.First, c.QuietMs), cls...)
+	run.Case(nt, evid.Hash(c.Kind, c.Abridged, fmt.Sprint(c.Lens), c.Seed, fmt.Sprint(c.Code), c.Close, fmt.Sprint(c.Cuts), fmt.Sprint(c.Back), c.First, c.QuietMs, c.RefusedFirst), cls...)
 	if len(c.Cuts) <= 12 {
 		run.Sample(c)
 	}
@@ -519,6 +531,9 @@ func gen(t *rapid.T) Case {
 		nb := rapid.IntRange(0, 3).Draw(t, "nback")
 		for i := 0; i < nb; i++ {
 			c.Back = append(c.Back, genLen(t, "backlen", 4096))
+		}
+		if nb > 0 && rapid.IntRange(0, 3).Draw(t, "refusedfirst") == 0 {
+			c.RefusedFirst = rapid.IntRange(1, 3).Draw(t, "oddbytes")
 		}
 		if c.Close == "" && c.Code == nil && nb > 0 && rapid.IntRange(0, 15).Draw(t, "quiet") == 0 {
 			c.QuietMs = 150
@@ -633,6 +648,16 @@ func TestC08(t *testing.T) {
 						t.Fatalf("violation (replay %s): %v", p, err)
 					}
 				}
+			}
+		}
+		// a refused write (no whole number of words) followed by valid ones, short and long header
+		for _, back := range [][]int{{8, 12}, {127 * 4, 4}} {
+			c := Case{Kind: "tcp", Abridged: true, Seed: 13, Lens: []int{4}, Back: back, RefusedFirst: 2}
+			record(c)
+			n++
+			if err := oracle(c); err != nil && !strings.HasPrefix(err.Error(), "INFRA:") {
+				p := run.ViolationNamed(fmt.Sprintf("refused-%d", back[0]), c, err.Error())
+				t.Fatalf("violation (replay %s): %v", p, err)
 			}
 		}
 		// a request sent after the connection was quiet for longer than its read timeout
